@@ -153,6 +153,10 @@ func ParseType(name string) (*Type, error) {
 		t.Kind, t.Size = KF64, 8
 	case "String":
 		t.Kind = KString
+	case "JSON":
+		// the string serialisation of the JSON (Object) type: a String column with a
+		// state prefix that announces serialisation version 1
+		t.Kind = KString
 	case "FixedString":
 		n, err := strconv.Atoi(strings.TrimSpace(args))
 		if err != nil || n <= 0 {
@@ -249,6 +253,10 @@ func ParseType(name string) (*Type, error) {
 
 // EncodePrefix writes the serialization state prefix of a column tree.
 func EncodePrefix(w *W, t *Type) {
+	if t.Name == "JSON" {
+		w.U64(1)
+		return
+	}
 	switch t.Kind {
 	case KLowCard:
 		w.I64(1) // SharedDictionariesWithAdditionalKeys
@@ -263,6 +271,16 @@ func EncodePrefix(w *W, t *Type) {
 }
 
 func DecodePrefix(r *R, t *Type) error {
+	if t.Name == "JSON" {
+		v, err := r.U64()
+		if err != nil {
+			return err
+		}
+		if v != 1 {
+			return fmt.Errorf("refproto: JSON string serialization version %d", v)
+		}
+		return nil
+	}
 	switch t.Kind {
 	case KLowCard:
 		v, err := r.I64()
